@@ -19,6 +19,7 @@ import (
 	"sync/atomic"
 	"testing"
 	"testing/synctest"
+	"time"
 
 	"pgregory.net/rapid"
 )
@@ -417,6 +418,18 @@ func flushStats() {
 // exited; otherwise a description (deadlock / leaked goroutines) including the
 // stacks of the bubble's goroutines. It must not be used with t.Fatal inside f.
 func Bubble(t *testing.T, f func()) (problem string) {
+	// Wall-clock watchdog (a real timer: it is created outside the bubble). A goroutine
+	// waiting for a plain sync.Mutex is not "durably blocked" for synctest, so virtual
+	// time cannot advance and the case would hang for ever; that is inconclusive, not a
+	// violation. The driver maps exit code 3 to INCONCLUSIVE.
+	wd := time.AfterFunc(watchdog, func() {
+		buf := make([]byte, 8<<20)
+		n := runtime.Stack(buf, true)
+		fmt.Printf("VERIF-WATCHDOG a case did not finish within %v of wall-clock time (virtual time stuck?)\n%s\n", watchdog, buf[:n])
+		flushStats()
+		os.Exit(3)
+	})
+	defer wd.Stop()
 	defer func() {
 		if r := recover(); r != nil {
 			msg := fmt.Sprint(r)
@@ -430,6 +443,8 @@ func Bubble(t *testing.T, f func()) (problem string) {
 	synctest.Test(t, func(*testing.T) { f() })
 	return ""
 }
+
+const watchdog = 45 * time.Second
 
 var bubbleRE = regexp.MustCompile(`synctest bubble (\d+)`)
 
